@@ -21,9 +21,10 @@ RULE = ('logical messages = header values TLC generates for CommonMsgInfo (3 kin
 ASSUMPTIONS = ['TlbSchema transcription of message$_, CommonMsgInfo, StateInit, CurrencyCollection (tags prefix-free checked by TLC)',
                'serialisation direction uses canonical values (minimal variable-length integers); parsing direction also non-minimal ones',
                'a message whose parts do not fit any placement (header + 3 control bits > 1023 ...) is not representable and not demanded',
-               'highload wallet data is covered only through WalletMessage-free fields (its query dictionary serialiser is unimplemented)']
+               'highload wallet data: the nested messages of old_queries may be placed by the serialiser as it likes (every placement variant is a valid encoding)']
 WRAP = {'StateInit': A.StateInit, 'CurrencyCollection': B.CurrencyCollection, 'WalletV3Data': W.WalletV3Data, 'WalletV4Data': W.WalletV4Data,
-        'NftItemData': N.NftItemData, 'NftItemSaleFees': N.NftItemSaleFees, 'NftItemSaleData': N.NftItemSaleData, 'HashUpdate': Ut.HashUpdate, 'TickTock': A.TickTock}
+        'NftItemData': N.NftItemData, 'NftItemSaleFees': N.NftItemSaleFees, 'NftItemSaleData': N.NftItemSaleData, 'HashUpdate': Ut.HashUpdate, 'TickTock': A.TickTock,
+        'HighloadWalletData': W.HighloadWalletData}
 
 
 def model_checks(tier):
@@ -116,7 +117,19 @@ def lib_wrap(ty, v):
         return Ut.HashUpdate(bi(v['old_hash']).to_bytes(32, 'big'), bi(v['new_hash']).to_bytes(32, 'big'))
     if ty == 'TickTock':
         return A.TickTock(bool(v['tick'][0]), bool(v['tock'][0]))
+    if ty == 'HighloadWalletData':
+        return W.HighloadWalletData(bi(v['wallet_id']), bi(v['last_cleaned']), bi(v['public_key']).to_bytes(32, 'big'),
+                                    {bi(e['k']): W.WalletMessage(bi(e['v']['send_mode']), lib_message(e['v']['message'])) for e in v['old_queries']} or None)
     raise ValueError(ty)
+
+
+def lib_message(mv):
+    """a Message value of the schema (with its placement choices, which the library's serialiser makes on its own) -> MessageAny"""
+    return T.MessageAny(lib_info(mv['info']), lib_init(mv['init'][0]['v']) if mv['init'] else None, tlbkit.tree_to_cell(mv['body']['v']))
+
+
+def hw_canonical(v):
+    return all(info_canonical(e['v']['message']['info']) for e in v['old_queries'])
 
 
 def leaf_tree(rng, nbits, nrefs):
@@ -243,6 +256,7 @@ def generate(tier, seed, ctx):
         ty, v = case['type'], case['val']
         canon = not (ty == 'CurrencyCollection' and not cc_canonical(v['cc'])) and \
             not (ty == 'NftItemSaleFees' and not (minimal(v['marketplace_fee']) and minimal(v['royalty_amount']))) and \
+            not (ty == 'HighloadWalletData' and not hw_canonical(v)) and \
             not (ty == 'NftItemSaleData' and not (minimal(v['full_price']) and minimal(v['fees_cell']['marketplace_fee']) and minimal(v['fees_cell']['royalty_amount'])))
         if canon:
             rec = {'op': 'wrap_ser', 'type': ty, 'val': v}
